@@ -242,6 +242,16 @@ def one_roundtrip(rng, res, d, use_gpg):
     obj2 = (Layout.read if is_layout else Link.read)(shuffled(json.loads(json.dumps(asd)), rng))
     if obj2.signable_bytes != obj.signable_bytes:
         res.fail("oracle", {"op": "roundtrip", "payload": asd}, {"why": "signable bytes depend on the order in which members were supplied"})
+    # the same for the bytes a DSSE signature covers: wrapping equal content gives equal bytes, however the dictionaries
+    # inside were filled, and a signature made over one wrapping verifies on the other
+    e1, e2 = Envelope.from_signable(obj), Envelope.from_signable(obj2)
+    res.evaluations += 1
+    if e1.pae() != e2.pae():
+        res.fail("oracle", {"op": "roundtrip", "payload": asd},
+                 {"why": "the bytes a DSSE signature covers depend on the order in which members were supplied, not on the content alone"})
+    if e1.pae() != W.pae(W.PAYLOAD_TYPE, json.dumps(json.loads(json.dumps(asd)), sort_keys=True).encode("utf8")):
+        res.fail("disagree", {"op": "roundtrip", "payload": asd},
+                 {"op": "pae", "why": "DSSE pre-authentication bytes differ from PAE(type, JSON of the content with sorted members)"})
     path = os.path.join(d, "f.%d" % rng.randrange(10**6))
     md.dump(path)
     content = json.load(open(path, encoding="utf8"))
